@@ -685,6 +685,85 @@ def gen_points(c):
         cx('log2(-%s)' % xs, 'log2 %s' % X, '(PI / ln 2)', complex(math.log2(float(x)), math.pi / math.log(2)), 'complex-log')
         y = Fraction(r.randint(1, 999), 1000)
         cx('acosh(%s)' % fx(0, y.numerator, y.denominator), '0', 'acos %s' % cq(y), complex(0, math.acos(float(y))), 'complex-acosh', either_im=True)
+    # --- powers with a COMPLEX EXPONENT: z^w = exp(w ln z) (principal branch), for
+    #     bases {positive rationals, e, multiples of pi, next to 0, negative reals, complex, imaginary}
+    #     x exponents {b i, a + b i (a, b rational, integer or not), multiples of pi i, a + multiple of pi i};
+    #     with ln z = RHO + i THETA and w = A + i B:
+    #         Re = exp(A RHO - B THETA) cos(B RHO + A THETA),  Im = exp(A RHO - B THETA) sin(B RHO + A THETA).
+    #     Never exact unless the base is 1 (cos(b ln x) is transcendental for rational x != 1): must be marked approx.
+    def fr_txt(fr):
+        fr = Fraction(fr)
+        return fx(fr < 0, abs(fr.numerator), fr.denominator)
+
+    def cpow_bases():
+        a_, b_ = r.randint(1, 400), r.choice([1, 2, 3, 7, 10, 25])
+        x = Fraction(a_, b_)
+        if x == 1:
+            x = Fraction(3, 2)
+        yield ('posrat', fr_txt(x), 'ln %s' % cq(x), '0', complex(float(x)))
+        yield ('e', 'e', '1', '0', complex(math.e))
+        k = Fraction(r.randint(1, 12), r.choice([1, 2, 3, 4]))
+        yield ('pimult', '(%s pi)' % fr_txt(k), 'ln (%s * PI)' % cq(k), '0', complex(float(k) * math.pi))
+        j = r.choice([5, 10, 20])
+        yield ('near0', '(1/10^%d)' % j, 'ln (1 / 10 ^ %d)' % j, '0', complex(10.0 ** -j))
+        xn = Fraction(r.randint(1, 300), r.choice([1, 2, 5, 10]))
+        yield ('negreal', '(-%s)' % fr_txt(xn), 'ln %s' % cq(xn), 'PI', complex(-float(xn)))
+        cr, ci = Fraction(r.randint(1, 40), 10), Fraction(r.randint(-40, 40), 10)
+        if ci == 0:
+            ci = Fraction(1, 2)
+        yield ('complex', '(%s %s %s i)' % (fr_txt(cr), '+' if ci > 0 else '-', fr_txt(abs(ci))),
+               '(ln (%s * %s + %s * %s) / 2)' % (cq(cr), cq(cr), cq(ci), cq(ci)), 'atan (%s / %s)' % (cq(ci), cq(cr)),
+               complex(float(cr), float(ci)))
+        di = Fraction(r.randint(1, 50), 10)
+        sg = r.random() < 0.5
+        yield ('imag', '(%s%s i)' % ('-' if sg else '', fr_txt(di)), 'ln %s' % cq(di), '(- (PI / 2))' if sg else '(PI / 2)',
+               complex(0.0, -float(di) if sg else float(di)))
+
+    def cpow_exponents():
+        b = Fraction(r.randint(-30, 30), r.choice([2, 3, 4, 5, 7, 10]))
+        if b == 0:
+            b = Fraction(1, 2)
+        a = Fraction(r.randint(-25, 25), r.choice([2, 3, 4, 10]))
+        kp = Fraction(r.randint(-6, 6), r.choice([1, 2, 3, 6]))
+        if kp == 0:
+            kp = Fraction(1, 3)
+        ib = r.choice([-3, -2, -1, 1, 2, 3])
+        yield ('bi', '(%s i)' % fr_txt(b), '0', cq(b), complex(0, float(b)))
+        yield ('a+bi', '(%s %s %s i)' % (fr_txt(a), '+' if b > 0 else '-', fr_txt(abs(b))), cq(a), cq(b), complex(float(a), float(b)))
+        yield ('int-i', '(%d i)' % ib, '0', cq(ib), complex(0, ib))
+        yield ('pi-i', '(%s pi i)' % fr_txt(kp), '0', '(%s * PI)' % cq(kp), complex(0, float(kp) * math.pi))
+        yield ('a+pi-i', '(%s + %s pi i)' % (fr_txt(abs(a)), fr_txt(abs(kp))), cq(abs(a)), '(%s * PI)' % cq(abs(kp)),
+               complex(float(abs(a)), float(abs(kp)) * math.pi))
+
+    def cpow(btxt, RHO, THETA, zb, wtxt, A, Bq, w, kind):
+        try:
+            ref = zb ** w
+        except (OverflowError, ZeroDivisionError):
+            return
+        if not (1e-12 < abs(ref) < 1e12):
+            return
+        mod = 'exp (%s * %s - %s * %s)' % (A, RHO, Bq, THETA)
+        ang = '(%s * %s + %s * %s)' % (Bq, RHO, A, THETA)
+        cx('%s^%s' % (btxt, wtxt), '%s * cos %s' % (mod, ang), '%s * sin %s' % (mod, ang), ref, kind)
+
+    for (e_, zb, RHO, TH, wt, A, Bq, w) in [
+            ('2^(0.5i)', 2, 'ln 2', '0', None, '0', '(1 / 2)', 0.5j), ('2^(0.5+i)', 2, 'ln 2', '0', None, '(1 / 2)', '1', 0.5 + 1j),
+            ('9^(0.5+0.5i)', 9, 'ln 9', '0', None, '(1 / 2)', '(1 / 2)', 0.5 + 0.5j), ('4^(1.5+0.5i)', 4, 'ln 4', '0', None, '(3 / 2)', '(1 / 2)', 1.5 + 0.5j),
+            ('e^(i pi/2)', math.e, '1', '0', None, '0', '(PI / 2)', 1j * math.pi / 2), ('e^(pi i)', math.e, '1', '0', None, '0', 'PI', 1j * math.pi),
+            ('e^(i pi/3)', math.e, '1', '0', None, '0', '(PI / 3)', 1j * math.pi / 3), ('(1/2)^(i/3)', 0.5, 'ln (1 / 2)', '0', None, '0', '(1 / 3)', 1j / 3),
+            ('e^(2 pi i)', math.e, '1', '0', None, '0', '(2 * PI)', 2j * math.pi), ('i^i', 1j, '0', '(PI / 2)', None, '0', '1', 1j),
+            ('(-1)^i', -1, '0', 'PI', None, '0', '1', 1j), ('2^(3i)', 2, 'ln 2', '0', None, '0', '3', 3j)]:
+        ref = complex(zb) ** w
+        mod = 'exp (%s * %s - %s * %s)' % (A, RHO, Bq, TH)
+        ang = '(%s * %s + %s * %s)' % (Bq, RHO, A, TH)
+        cx(e_, '%s * cos %s' % (mod, ang), '%s * sin %s' % (mod, ang), ref, 'cpow-corpus')
+    for _ in range(1 if quick else 8):
+        for (bk, btxt, RHO, TH, zb) in cpow_bases():
+            for (wk, wtxt, A, Bq, w) in cpow_exponents():
+                cpow(btxt, RHO, TH, zb, wtxt, A, Bq, w, 'cpow-%s^%s' % (bk, wk))
+    for e_ in ['1^((2/5) i)', '1^(1/2 + (1/3) pi i)']:
+        pts.append(Pt(e_, '1', 1.0, 'exact-point', fn='exactpt', want_exact=True))
+    pts.append(Pt('0^((2/5) i)', None, None, 'domain-edge', fn='edge', expect='error'))
     # --- closed ends of the domains: in the domain, must be values (true values: PointDefs.edge_values)
     for (e_, coq, ref, f_) in [('asin(1)', '(PI / 2)', math.pi / 2, 'asin'), ('asin(-1)', '(- (PI / 2))', -math.pi / 2, 'asin'),
                                ('acos(1)', '0', 0.0, 'acos'), ('acos(-1)', 'PI', math.pi, 'acos'), ('acosh(1)', '0', 0.0, 'acosh'),
@@ -901,6 +980,8 @@ def check_l2(c, pi_model):
         if r15[0] == b'err':
             if p.fn in ('sinh', 'cosh', 'exp') and p.ref in (float('inf'), float('-inf')):
                 continue          # the true value exceeds every f64: "an error when the result cannot be represented"
+            if p.kind.startswith('cpow') and c.known_finding('pow_irrational_exponent_unsupported'):
+                continue          # an in-domain complex power rejected: the open finding, not a new one
             if 'into_f64_overflow' in kn or p.probe == 'into_f64_overflow':
                 # what remains of the fixed class: an argument whose numerator or denominator exceeds the
                 # f64 range is rejected with "value is too large" (never answered with a wrong number)
